@@ -12,6 +12,11 @@ import (
 var Corpus = [][]string{
 	// a handle whose snapshot is stale: Enable/Disable must still be sent
 	{"c create p1 127.0.0.1:$A u:1", "h fetch h1 p1", "h fetch h2 p1", "h disable h1", "h enable h2", "h disable h1", "c delete p1", "h enable h2"},
+	// a handle saved with another spelling of the address, or another address: it must read back
+	// what the server made of it, and a later Enable/Disable must not move the proxy
+	{"c create p1 127.0.0.1:$A u:1", "h fetch h1 p1", "h set h1 localhost:$A u:1", "h save h1", "h disable h1", "h enable h1", "c get p1"},
+	{"c create p1 127.0.0.1:$A u:1", "h fetch h1 p1", "h set h1 :$B u:2", "h save h1", "h save h1", "h disable h1", "h enable h1"},
+	{"c create p1 127.0.0.1:$A u:1", "h fetch h1 p1", "h disable h1", "h set h1 localhost:$B u:2", "h enable h1", "c get p1"},
 	// C19 (fixed): `toxiproxy-cli toxic update` without --toxicity must keep the toxic's toxicity
 	{"c create p1 127.0.0.1:$A u:1", `c add p1 t1 latency downstream 0.3 {"latency":5}`, `cli tupd p1 t1 - {"jitter":7}`, "c toxics p1"},
 }
